@@ -76,12 +76,19 @@ def run(rep: Report, tier: str) -> None:
 				order.append((n.targets[0].attr, i))
 		want = {'line': 0, 'column': 1, 'end_line': 2, 'end_column': 3}
 		r.check(dict(order) == want, f'{kind}:source_map-order', (ENTRY, rb[dkey][0].lineno), f'{kind}: positions restored as {dict(order)}; written order is begin line, begin column, end line, end column = {want}')
-	sm = next((n for n in ast.walk(dumps_x) if isinstance(n, (ast.Assign, ast.AnnAssign)) and unparse(n.targets[0] if isinstance(n, ast.Assign) else n.target) == 'source_map'), None)
-	if sm is None or not isinstance(sm.value, ast.Tuple):
-		r.undecided('writer:source_map-order', dumps.where, 'source_map tuple not found in __dumps')
-	else:
-		got = [unparse(e).replace('proxy.source_map', '') for e in sm.value.elts]
-		r.check(got == ["['begin'][0]", "['begin'][1]", "['end'][0]", "['end'][1]"], 'writer:source_map-order', (ENTRY, sm.lineno), f'__dumps writes positions in order {got}')
+	# writer side, per record shape, on the fully inlined body: the value under 'source_map' is (begin line, begin column, end line, end column) of the entry's own span
+	from vlib.match import FI
+	wrote = 0
+	for d in returned_dicts(FI(dumps)):
+		ks = set(dict_keys(d))
+		kind = 'tree' if 'children' in ks else ('token' if 'value' in ks else '?')
+		v = next((v_ for k_, v_ in zip(d.keys, d.values) if const_str(k_) == 'source_map'), None)
+		if not isinstance(v, ast.Tuple) or len(v.elts) != 4:
+			r.skip(f'writer:{kind}:source_map-order', dumps.where, 'the source_map value of the record is not a 4-tuple expression')
+			continue
+		wrote += 1
+		got = [unparse(e).split('source_map', 1)[-1] for e in v.elts]
+		r.check(got == ["['begin'][0]", "['begin'][1]", "['end'][0]", "['end'][1]"] and all('source_map' in unparse(e) for e in v.elts), f'writer:{kind}:source_map-order', (ENTRY, d.lineno), f'{kind}: __dumps writes the span as {got}; the reader restores (line, column, end_line, end_column) from (begin[0], begin[1], end[0], end[1]) — a multi-line {kind} would come back with a different span', unparse(v))
 	tds = typeddict_keys(m.tree)
 	for kind, td in (('tree', 'DumpTree'), ('token', 'DumpToken')):
 		if kind in shapes:
